@@ -224,34 +224,38 @@ type Native struct {
 
 // Hist is the state of one history run.
 type Hist struct {
-	d             drawer
-	prop          string
-	nodes         []*Node
-	cloneTags     map[int][]int
-	cloneCalls    int
-	natives       []*Native
-	byPtr         map[uintptr]*Node
-	rel           map[[2]int]string // relation between two heap citizens (node IDs; natives use negative IDs)
-	fails         []Failure
-	trace         []string
-	step          int
-	dead          bool
-	counters      map[string]int
-	opSeq         uint64
-	dirty         map[int]bool // citizens the current step may legitimately change
-	curOp         string
-	curOwner      []string
-	group         int
-	evals         int
-	aliased       bool
-	mutAfterAlias bool
-	nextID        int
-	derivedOK     bool
-	maxSlots      int
-	maxNodes      int
-	big           bool
-	last          *Node // container the previous step worked on (pick locality)
-	sizeClass     int   // 0 small, 1 big (48 slots), 2 huge list first, 3 deep chain first
+	d               drawer
+	prop            string
+	nodes           []*Node
+	cloneTags       map[int][]int
+	cloneCalls      int
+	sparse          int // >1: whole-heap comparison only after every sparse-th operation
+	unchecked       int
+	uncheckedOwners []string
+	final           bool
+	natives         []*Native
+	byPtr           map[uintptr]*Node
+	rel             map[[2]int]string // relation between two heap citizens (node IDs; natives use negative IDs)
+	fails           []Failure
+	trace           []string
+	step            int
+	dead            bool
+	counters        map[string]int
+	opSeq           uint64
+	dirty           map[int]bool // citizens the current step may legitimately change
+	curOp           string
+	curOwner        []string
+	group           int
+	evals           int
+	aliased         bool
+	mutAfterAlias   bool
+	nextID          int
+	derivedOK       bool
+	maxSlots        int
+	maxNodes        int
+	big             bool
+	last            *Node // container the previous step worked on (pick locality)
+	sizeClass       int   // 0 small, 1 big (48 slots), 2 huge list first, 3 deep chain first
 }
 
 func (h *Hist) tracef(format string, a ...any) {
@@ -564,6 +568,64 @@ func (h *Hist) checkNode(n *Node) *mismatch {
 	return nil
 }
 
+// bindPending reads exactly the slots in which the model expects a container it has not seen yet (created by the
+// operation's own conversion of a Go value, a copy made by Clone/Merge …) and binds them. It is what remains of the
+// whole-heap comparison on the steps a sparse-read history skips: identities must be known before the next operation.
+func (h *Hist) bindPending() {
+	for _, n := range append([]*Node(nil), h.nodes...) {
+		if n.Impl == nil || h.dead {
+			continue
+		}
+		report := func(mm *mismatch) {
+			if h.dirty[n.ID] {
+				h.fail("result", h.curOp, h.curOwner, "after "+h.curOp+": "+mm.msg)
+			} else {
+				owners, rel := h.frameOwners(n.ID)
+				h.fail("frame", rel, owners, fmt.Sprintf("%s changed a container it must not touch: %s (relation %s)", h.curOp, mm.msg, rel))
+			}
+		}
+		if n.IsObj {
+			for _, k := range n.keys() {
+				v := n.Fields[k]
+				if (v.K != KList && v.K != KObj) || v.N == nil || v.N.Pend == nil {
+					continue
+				}
+				o := n.object()
+				var typ at.Type
+				var got any
+				if p, msg := try(func() { typ, got = o.TypeOf(k), o.Get(k) }); p {
+					report(&mismatch{node: n, msg: fmt.Sprintf("%s[%q] cannot be read: %s", n.Name, k, msg)})
+					return
+				}
+				mm := h.checkSlot(n, "["+strconv.Quote(k)+"]", typ, got, &v)
+				n.Fields[k] = v
+				if mm != nil {
+					report(mm)
+					return
+				}
+			}
+			continue
+		}
+		for i := range n.Elems {
+			v := &n.Elems[i]
+			if (v.K != KList && v.K != KObj) || v.N == nil || v.N.Pend == nil {
+				continue
+			}
+			l := n.list()
+			var typ at.Type
+			var got any
+			if p, msg := try(func() { typ, got = l.TypeOf(i), l.Get(i) }); p {
+				report(&mismatch{node: n, msg: fmt.Sprintf("%s[%d] cannot be read: %s", n.Name, i, msg)})
+				return
+			}
+			if mm := h.checkSlot(n, "["+strconv.Itoa(i)+"]", typ, got, v); mm != nil {
+				report(mm)
+				return
+			}
+		}
+	}
+}
+
 // bindResult checks that got is a fresh container and binds it to the (pending) node n, then
 // verifies its content recursively (binding nested pending nodes on the way).
 func (h *Hist) bindResult(n *Node, got any, owners []string) bool {
@@ -645,6 +707,31 @@ func (h *Hist) isDeriving(op string) bool {
 func (h *Hist) heapCheck() {
 	if h.dead {
 		return
+	}
+	if h.sparse > 1 && !h.final {
+		// sparse reads: the whole-heap comparison runs only after every h.sparse-th operation, so that the library also
+		// goes through sequences of mutations with nobody reading in between (lazily built or invalidated internal state
+		// is otherwise always rebuilt right after every single step)
+		h.unchecked++
+		for _, o := range h.curOwner {
+			if !contains(h.uncheckedOwners, o) {
+				h.uncheckedOwners = append(h.uncheckedOwners, o)
+			}
+		}
+		if h.unchecked < h.sparse {
+			h.bindPending()
+			return
+		}
+	}
+	if h.unchecked > 0 {
+		own := append([]string(nil), h.curOwner...)
+		for _, o := range h.uncheckedOwners {
+			if !contains(own, o) {
+				own = append(own, o)
+			}
+		}
+		h.curOwner = own
+		h.unchecked, h.uncheckedOwners = 0, nil
 	}
 	for _, n := range append([]*Node(nil), h.nodes...) {
 		if n.Impl == nil {
